@@ -7,7 +7,7 @@
 //! user properties); SUBSCRIBE with many long filters.  Implementation-side search support only.
 
 use crate::fam::{Fam, V3, V5};
-use crate::poracle::{frame_extent, sched_text, IOKINDS};
+use crate::poracle::{frame_extent, sched_text, IOKINDS, READ_IOKINDS};
 use crate::report::{Report, Rng};
 use crate::sio::{Sched, Term, WItem};
 use mqtt_proto::{header_len, v3, v5, Pid, QoS, QosPid, TopicFilter, TopicName};
@@ -177,7 +177,7 @@ fn cuts<F: Fam>(rep: &mut Report, c: &Case<F>, faults: bool, rng: &mut Rng) {
             }
         }
         // C14 has both clauses: a transport error keeps its kind, and end-of-stream inside a packet is an EOF error
-        let terms = if faults { vec![Term::Err(*rng.pick(&IOKINDS)), Term::Eof] } else { vec![Term::Eof] };
+        let terms = if faults { vec![Term::Err(*rng.pick(&READ_IOKINDS)), Term::Eof] } else { vec![Term::Eof] };
         for (term, sched) in terms.into_iter().flat_map(|t| [(t, vec![]), (t, chunky())]) {
             let ok = |e: &crate::fam::ErrInfo| match term {
                 Term::Eof => e.is_eof,
